@@ -17,8 +17,9 @@ import (
 // consecutive with strictly increasing round-received (C02), and each
 // creator's transactions committed in creation order, once (C04/C05).
 type verifSysNode struct {
-	c      *core
-	blocks []hg.Block
+	c          *core
+	blocks     []hg.Block
+	firstIndex int // index of the first block this node delivers (0 unless fast-forwarded)
 }
 
 type verifSys struct {
@@ -83,7 +84,14 @@ func (s *verifSys) pullTx(from, to int, limit int, withTx bool) error {
 func (s *verifSys) checkInvariants(step int) {
 	for i, a := range s.nodes {
 		for k, b := range a.blocks {
-			verifAssert("block-indexes-consecutive-from-zero", b.Index() == k)
+			// what the node reports later for a delivered block: the delivered body
+			// plus the application's answer (state hash = number of deliveries so far)
+			if sb, err := a.c.hg.Store.GetBlock(b.Index()); err == nil {
+				verifAssert("stored-block-is-delivered-body-plus-application-answer", sb.RoundReceived() == b.RoundReceived() && len(sb.Transactions()) == len(b.Transactions()) && string(sb.FrameHash()) == string(b.FrameHash()) && len(sb.StateHash()) == 1 && int(sb.StateHash()[0]) == k+1)
+			}
+			if a.firstIndex == 0 {
+				verifAssert("block-indexes-consecutive-from-zero", b.Index() == k)
+			}
 			if k > 0 {
 				verifAssert("round-received-strictly-increasing", b.RoundReceived() > a.blocks[k-1].RoundReceived())
 			}
